@@ -50,6 +50,87 @@ theorem appendEach_listsOnly : ∀ (vs : List Val) (r l : Nat), ListsOnly (appen
 
 theorem newListLit_listsOnly (vs : List Val) : ListsOnly (newListLit vs) := appendEach_listsOnly vs 0 0
 
+/-- list cells below `n0` are as before and the list store did not shrink -/
+def ListsKept (n0 : Nat) (st st' : St) : Prop :=
+  (∀ q, q < n0 → st'.backing q = st.backing q) ∧ st.lists.size ≤ st'.lists.size
+
+theorem listsKept_refl (n0 : Nat) (st : St) : ListsKept n0 st st := ⟨fun _ _ => rfl, Nat.le_refl _⟩
+theorem listsKept_trans (n0 : Nat) (a b c : St) (h1 : ListsKept n0 a b) (h2 : ListsKept n0 b c) : ListsKept n0 a c :=
+  ⟨fun q hq => (h2.1 q hq).trans (h1.1 q hq), Nat.le_trans h1.2 h2.2⟩
+
+/-- appending one element at a time to a slice that lives at or above `n0` -/
+theorem appendEach_ge (n0 : Nat) : ∀ (vs : List Val) (r l : Nat) (s s' : St) (res : Val),
+    n0 ≤ r → r < s.lists.size → l ≤ (s.backing r).length →
+    runM (appendEach vs r l) s = (.ok res, s') →
+    ∃ r' l', res = .list r' l' ∧ s'.elems r' l' = s.elems r l ++ vs ∧ ListsKept n0 s s' := by
+  intro vs
+  induction vs with
+  | nil =>
+    intro r l s s' res _ _ _ h
+    simp only [appendEach, runM_pure] at h
+    injection h with h1 h2; injection h1 with h1; subst h1; subst h2
+    exact ⟨r, l, rfl, by simp, listsKept_refl _ _⟩
+  | cons v vs ih =>
+    intro r l s s' res hge hr hl h
+    simp only [appendEach] at h
+    rw [runM_bind] at h
+    cases ha : runM (appendVals r l [v]) s with
+    | mk ra s1 =>
+      rw [ha] at h
+      cases ra with
+      | error e => simp at h
+      | ok x =>
+        obtain ⟨r', hx, hel, hoth, hcase⟩ := append_model r l [v] s s1 x hr hl ha
+        subst hx
+        have hb := append_inBounds r l [v] s s1 r' _ hr ha
+        simp only at h
+        have hr'ge : n0 ≤ r' := by
+          rcases hcase with ⟨e, _⟩ | ⟨e, _⟩
+          · rw [e]; exact hge
+          · rw [e]; omega
+        have hl1 : l + [v].length ≤ (s1.backing r').length := by
+          have h5 : (s1.elems r' (l + [v].length)).length = l + [v].length := by
+            rw [hel, List.length_append, elems_length s r l hl]
+          have h6 : (s1.elems r' (l + [v].length)).length = min (l + [v].length) (s1.backing r').length := by simp [St.elems]
+          omega
+        obtain ⟨r2, l2, e1, e2, e3⟩ := ih r' _ s1 s' res hr'ge hb.1 hl1 h
+        refine ⟨r2, l2, e1, ?_, listsKept_trans n0 s s1 s' ⟨fun q hq => hoth q (by omega), hb.2⟩ e3⟩
+        rw [e2, hel]; simp
+
+/-- a list literal built from the nil slice: its elements are `vs`; no existing list cell changes (slot 0, the nil
+    slice, has no capacity, so the first append allocates) -/
+theorem newListLit_model (vs : List Val) (st st' : St) (res : Val) (h0 : st.backing 0 = []) (hsz : 0 < st.lists.size)
+    (h : runM (newListLit vs) st = (.ok res, st')) :
+    ∃ r l, res = .list r l ∧ st'.elems r l = vs ∧ ListsKept st.lists.size st st' := by
+  unfold newListLit at h
+  cases vs with
+  | nil =>
+    simp only [appendEach, runM_pure] at h
+    injection h with h1 h2; injection h1 with h1; subst h1; subst h2
+    exact ⟨0, 0, rfl, by simp [St.elems], listsKept_refl _ _⟩
+  | cons v vs =>
+    simp only [appendEach] at h
+    rw [runM_bind] at h
+    have hbig : ¬ 0 + [v].length ≤ (st.backing 0).length := by rw [h0]; simp
+    cases hc : growCap (st.backing 0).length (0 + [v].length) with
+    | none =>
+      cases ha : runM (appendVals 0 0 [v]) st with
+      | mk ra s1 =>
+        cases ra with
+        | error e => rw [ha] at h; simp at h
+        | ok x => exact absurd ha (appendVals_noCap 0 0 [v] st s1 x (by simp) hbig hc)
+    | some c =>
+      rw [appendVals_grows 0 0 c [v] st (by simp) hbig hc] at h
+      simp only at h
+      have hkept0 : ListsKept st.lists.size st
+          { st with lists := st.lists.push ((st.backing 0).take 0 ++ [v] ++ List.replicate (c - (0 + [v].length)) Val.null) } :=
+        ⟨fun q hq => backing_push_old st q _ (Nat.ne_of_lt hq), by simp⟩
+      obtain ⟨r2, l2, e1, e2, e3⟩ := appendEach_ge st.lists.size vs st.lists.size (0 + [v].length) _ st' res (Nat.le_refl _)
+        (by simp) (by rw [backing_push_new]; simp) h
+      refine ⟨r2, l2, e1, ?_, listsKept_trans _ _ _ _ hkept0 e3⟩
+      rw [e2]
+      simp [St.elems, backing_push_new]
+
 /-- a function value copied into an object is a NEW function record: same name, declaration and declaration
     scope, bound to the object CELL (`this` = the object, by reference) -/
 theorem bindToObject_run (obj : Nat) (sup : Option Val) (id : Nat) (fr : FuncRec) (st : St) (hf : st.funcs[id]? = some fr) :
@@ -78,18 +159,22 @@ theorem entries_setMap_other (st : St) (r q : Nat) (kvs : List (Val × Val)) (h 
   rw [Array.getElem?_setIfInBounds_ne (Ne.symm h)]
 
 /-- what one copied property does to the heap: exactly one `mapStore` into the object's cell -/
-structure CopyResult (st st' : St) (obj : Nat) (k v nv : Val) : Prop where
+structure CopyResult (st st' : St) (obj : Nat) (initSuper : List Val) (k v nv : Val) : Prop where
   stored : st'.entries obj = mapStore (st.entries obj) k nv
   size : st'.maps.size = st.maps.size
   others : ∀ q, q ≠ obj → st'.entries q = st.entries q
   plain : isFunc v = false → nv = v ∧ st'.funcs = st.funcs
   bound : ∀ id, v = .func id → ∃ fr sup, st.funcs[id]? = some fr ∧ nv = .func st.funcs.size ∧
-            st'.funcs = st.funcs.push { fr with this := some (.map obj), super := sup }
+            st'.funcs = st.funcs.push { fr with this := some (.map obj), super := sup } ∧
+            ((keyEq k (.str initName) && !initSuper.isEmpty) = true → st.backing 0 = [] → 0 < st.lists.size →
+              ∃ r l, sup = some (.list r l) ∧ st'.elems r l = initSuper) ∧
+            ((keyEq k (.str initName) && !initSuper.isEmpty) = false → sup = none)
+  lists : st.backing 0 = [] → 0 < st.lists.size → ListsKept st.lists.size st st'
 
 theorem copyProp_spec (obj : Nat) (initSuper : List Val) (k v nv : Val) (st st' : St) (ho : obj < st.maps.size)
-    (h : runM (copyProp obj initSuper k v) st = (.ok nv, st')) : CopyResult st st' obj k v nv := by
+    (h : runM (copyProp obj initSuper k v) st = (.ok nv, st')) : CopyResult st st' obj initSuper k v nv := by
   have plainCase : ∀ (hv : isFunc v = false),
-      runM (do setMap obj (mapStore (← getMap obj) k v); pure v : M Val) st = (.ok nv, st') → CopyResult st st' obj k v nv := by
+      runM (do setMap obj (mapStore (← getMap obj) k v); pure v : M Val) st = (.ok nv, st') → CopyResult st st' obj initSuper k v nv := by
     intro hv h
     rw [runM_bind, getMap_run] at h
     simp only at h
@@ -97,7 +182,7 @@ theorem copyProp_spec (obj : Nat) (initSuper : List Val) (k v nv : Val) (st st' 
     simp only [runM_pure] at h
     injection h with h1 h2; injection h1 with h1; subst h1; subst h2
     exact ⟨entries_setMap_same st obj _ ho, by simp, fun q hq => entries_setMap_other st obj q _ hq,
-      fun _ => ⟨rfl, rfl⟩, fun id hid => by rw [hid] at hv; simp [isFunc] at hv⟩
+      fun _ => ⟨rfl, rfl⟩, fun id hid => by rw [hid] at hv; simp [isFunc] at hv, fun _ _ => ⟨fun _ _ => rfl, Nat.le_refl _⟩⟩
   cases v
   case func id =>
     simp only [copyProp] at h
@@ -118,6 +203,31 @@ theorem copyProp_spec (obj : Nat) (initSuper : List Val) (k v nv : Val) (st st' 
           | error e => simp only at hr; injection hr with _ h2; subst h2; exact this
           | ok x => simp only [runM_pure] at hr; injection hr with _ h2; subst h2; exact this
       · intro s r s' hr; simp only [runM_pure] at hr; injection hr with _ h2; subst h2; exact ⟨rfl, rfl, rfl⟩
+    have hinfo : ∀ sup s1, runM supm st = (.ok sup, s1) →
+        (st.backing 0 = [] → 0 < st.lists.size → ListsKept st.lists.size st s1) ∧
+        ((keyEq k (.str initName) && !initSuper.isEmpty) = true → st.backing 0 = [] → 0 < st.lists.size →
+          ∃ r l, sup = some (.list r l) ∧ s1.elems r l = initSuper) ∧
+        ((keyEq k (.str initName) && !initSuper.isEmpty) = false → sup = none) := by
+      intro sup s1 hr
+      rw [← hsupm] at hr
+      by_cases hcond : (keyEq k (Val.str initName) && !initSuper.isEmpty) = true
+      · simp only [hcond, if_true] at hr
+        rw [runM_bind] at hr
+        cases hn : runM (newListLit initSuper) st with
+        | mk rn sn =>
+          rw [hn] at hr
+          cases rn with
+          | error e => simp at hr
+          | ok x =>
+            simp only [runM_pure] at hr
+            injection hr with h1 h2; injection h1 with h1; subst h1; subst h2
+            refine ⟨fun h0 hsz => ?_, fun _ h0 hsz => ?_, fun hc => by rw [hcond] at hc; cases hc⟩
+            · obtain ⟨_, _, _, _, hk⟩ := newListLit_model initSuper st sn x h0 hsz hn; exact hk
+            · obtain ⟨r, l, e1, e2, _⟩ := newListLit_model initSuper st sn x h0 hsz hn
+              exact ⟨r, l, by rw [e1], e2⟩
+      · simp only [hcond, if_false, runM_pure] at hr
+        injection hr with h1 h2; injection h1 with h1; subst h1; subst h2
+        exact ⟨fun _ _ => listsKept_refl _ _, fun hc => absurd hc hcond, fun _ => rfl⟩
     cases hs : runM supm st with
     | mk rs s1 =>
       obtain ⟨e1, e2, _⟩ := hlo st rs s1 hs
@@ -138,7 +248,8 @@ theorem copyProp_spec (obj : Nat) (initSuper : List Val) (k v nv : Val) (st st' 
           simp only [runM_pure] at h
           injection h with h1 h2; injection h1 with h1; subst h1; subst h2
           have ho1 : obj < s1.maps.size := by rw [e1]; exact ho
-          refine ⟨?_, by simp [e1], ?_, fun hv => by simp [isFunc] at hv, ?_⟩
+          obtain ⟨hk, hsupT, hsupF⟩ := hinfo sup s1 hs
+          refine ⟨?_, by simp [e1], ?_, fun hv => by simp [isFunc] at hv, ?_, fun h0 hsz => hk h0 hsz⟩
           · have hset : ∀ (A : Array (List (Val × Val))) (kv : List (Val × Val)), obj < A.size →
                 (A.setIfInBounds obj kv).getD obj [] = kv := by intro A kv hA; simp [hA]
             simp only [St.entries]
@@ -149,7 +260,7 @@ theorem copyProp_spec (obj : Nat) (initSuper : List Val) (k v nv : Val) (st st' 
             simp [e1]
           · intro id' hid
             injection hid with hid; subst hid
-            exact ⟨fr, sup, by rw [← e2]; exact hfr, by rw [e2], by simp [e2]⟩
+            exact ⟨fr, sup, by rw [← e2]; exact hfr, by rw [e2], by simp [e2], hsupT, hsupF⟩
   all_goals exact plainCase rfl (by simpa only [copyProp] using h)
 
 
@@ -266,5 +377,265 @@ theorem new_runs_init_once (runInit : Nat → List Val → M Val) (tr id : Nat) 
     | error e =>
       simp only
       cases hfe : e.isFatal <;> simp [hfe, runM_throw, runM_pure] <;> rfl
+
+
+/-! ### all templates: induction over the super lists -/
+
+theorem mapLookup_mapStore_str_other (kvs : List (Val × Val)) (k nv : Val) (key : List Nat) (hk : keyEq k (.str key) = false) :
+    mapLookup (mapStore kvs k nv) (.str key) = mapLookup kvs (.str key) := by
+  have hdis : ∀ a : Val, keyEq a k = true → keyEq a (.str key) = false := by
+    intro a ha
+    cases has : keyEq a (.str key) with
+    | false => rfl
+    | true =>
+      have e := keyEq_eq_str a key has
+      subst e
+      have := keyEq_str_eq k key ha
+      subst this
+      rw [keyEq_str_self] at hk; cases hk
+  exact mapLookup_mapStore_other kvs k (.str key) nv hk hdis
+
+/-- last write wins in the copy loop: if every entry of the template under `key` carries the non-function value `v`
+    (map keys are unique), the object holds `v` under `key` afterwards when the template has the key, and what it
+    held before otherwise -/
+theorem copyProps_value (obj : Nat) (initSuper : List Val) (key : List Nat) (v : Val) (hv : isFunc v = false) :
+    ∀ (tkvs : List (Val × Val)) (init0 r : Val) (s s' : St), obj < s.maps.size →
+    (∀ k w, (k, w) ∈ tkvs → keyEq k (.str key) = true → w = v) →
+    runM (copyProps obj initSuper tkvs init0) s = (.ok r, s') →
+    mapLookup (s'.entries obj) (.str key) =
+      if tkvs.any (fun kw => keyEq kw.1 (.str key)) then some v else mapLookup (s.entries obj) (.str key) := by
+  intro tkvs
+  induction tkvs with
+  | nil =>
+    intro init0 r s s' _ _ h
+    simp only [copyProps, runM_pure] at h
+    injection h with _ h2; subst h2; simp
+  | cons kw rest ih =>
+    intro init0 r s s' ho huniq h
+    obtain ⟨k, w⟩ := kw
+    simp only [copyProps] at h
+    rw [runM_bind] at h
+    cases hc : runM (copyProp obj initSuper k w) s with
+    | mk rc s1 =>
+      rw [hc] at h
+      cases rc with
+      | error e => simp at h
+      | ok nv =>
+        simp only at h
+        have cr := copyProp_spec obj initSuper k w nv s s1 ho hc
+        have ho1 : obj < s1.maps.size := by rw [cr.size]; exact ho
+        have := ih _ r s1 s' ho1 (fun k' w' hm hk => huniq k' w' (by simp [hm]) hk) h
+        rw [this]
+        cases hk : keyEq k (.str key) with
+        | true =>
+          have hw : w = v := huniq k w (by simp) hk
+          have hkk := keyEq_eq_str k key hk
+          subst hw; subst hkk
+          have : mapLookup (s1.entries obj) (.str key) = some w := by
+            rw [cr.stored, (cr.plain hv).1]; exact mapLookup_mapStore_same _ _ _ (keyEq_str_self key)
+          simp [List.any_cons, hk, this]
+        | false =>
+          have : mapLookup (s1.entries obj) (.str key) = mapLookup (s.entries obj) (.str key) := by
+            rw [cr.stored]; exact mapLookup_mapStore_str_other _ k nv key hk
+          rw [this]
+          simp only [List.any_cons, hk, Bool.false_or]
+
+/-- while an object is filled: every map cell except the object's, and every list cell that existed at the start, is
+    as in `st0` -/
+def Filling (st0 : St) (obj : Nat) (s : St) : Prop :=
+  obj < s.maps.size ∧ s.maps.size = st0.maps.size ∧ (∀ q, q ≠ obj → s.entries q = st0.entries q) ∧
+  ListsKept st0.lists.size st0 s
+
+theorem filling_zero (st0 : St) (obj : Nat) (s : St) (h0 : st0.backing 0 = []) (hsz : 0 < st0.lists.size)
+    (h : Filling st0 obj s) : s.backing 0 = [] ∧ 0 < s.lists.size :=
+  ⟨by rw [h.2.2.2.1 0 hsz]; exact h0, Nat.lt_of_lt_of_le hsz h.2.2.2.2⟩
+
+theorem copyProp_filling (st0 : St) (obj : Nat) (h0 : st0.backing 0 = []) (hsz : 0 < st0.lists.size)
+    (initSuper : List Val) (k v nv : Val) (s s' : St) (hf : Filling st0 obj s)
+    (h : runM (copyProp obj initSuper k v) s = (.ok nv, s')) : Filling st0 obj s' := by
+  have cr := copyProp_spec obj initSuper k v nv s s' hf.1 h
+  obtain ⟨z1, z2⟩ := filling_zero st0 obj s h0 hsz hf
+  have hl := cr.lists z1 z2
+  refine ⟨by rw [cr.size]; exact hf.1, by rw [cr.size]; exact hf.2.1, fun q hq => by rw [cr.others q hq]; exact hf.2.2.1 q hq, ?_⟩
+  exact listsKept_trans _ _ _ _ hf.2.2.2 ⟨fun q hq => hl.1 q (Nat.lt_of_lt_of_le hq hf.2.2.2.2), hl.2⟩
+
+theorem copyProps_filling (st0 : St) (obj : Nat) (h0 : st0.backing 0 = []) (hsz : 0 < st0.lists.size) (initSuper : List Val) :
+    ∀ (tkvs : List (Val × Val)) (init0 r : Val) (s s' : St), Filling st0 obj s →
+    runM (copyProps obj initSuper tkvs init0) s = (.ok r, s') → Filling st0 obj s' := by
+  intro tkvs
+  induction tkvs with
+  | nil => intro init0 r s s' hf h; simp only [copyProps, runM_pure] at h; injection h with _ h2; subst h2; exact hf
+  | cons kw rest ih =>
+    intro init0 r s s' hf h
+    obtain ⟨k, w⟩ := kw
+    simp only [copyProps] at h
+    rw [runM_bind] at h
+    cases hc : runM (copyProp obj initSuper k w) s with
+    | mk rc s1 =>
+      rw [hc] at h
+      cases rc with
+      | error e => simp at h
+      | ok nv => exact ih _ r s1 s' (copyProp_filling st0 obj h0 hsz initSuper k w nv s s1 hf hc) h
+
+/-- `key` is a string key of template `tr` or of a super template reachable from it within `f` levels (read in the
+    state `st0` in which `new` started; templates are cells other than the fresh object) -/
+inductive TKey (st0 : St) (obj : Nat) : Nat → Nat → List Nat → Prop
+  | own (f tr : Nat) (key : List Nat) (v : Val) : tr ≠ obj → (Val.str key, v) ∈ st0.entries tr → TKey st0 obj (f + 1) tr key
+  | sup (f tr r l sr : Nat) (key : List Nat) : tr ≠ obj →
+      mapLookup (st0.entries tr) (.str superName) = some (.list r l) → r < st0.lists.size →
+      Val.map sr ∈ st0.elems r l → TKey st0 obj f sr key → TKey st0 obj (f + 1) tr key
+
+/-- what one `addSuperClasses` call guarantees -/
+structure AddResult (st0 : St) (obj f tr : Nat) (s s' : St) : Prop where
+  filling : Filling st0 obj s'
+  mono : ∀ key, hasKey (s.entries obj) (.str key) = true → hasKey (s'.entries obj) (.str key) = true
+  keys : ∀ key, TKey st0 obj f tr key → hasKey (s'.entries obj) (.str key) = true
+  ownWins : ∀ key v, tr ≠ obj → (Val.str key, v) ∈ st0.entries tr → isFunc v = false →
+    (∀ k w, (k, w) ∈ st0.entries tr → keyEq k (.str key) = true → w = v) →
+    mapLookup (s'.entries obj) (.str key) = some v
+
+theorem superLoop_keys (st0 : St) (obj f : Nat)
+    (ih : ∀ tr s s' res, Filling st0 obj s → runM (addSuperClasses f obj tr) s = (.ok res, s') → AddResult st0 obj f tr s s') :
+    ∀ (vs : List Val) (err : Option Sig) (acc : List Val) (s s' : St) (out : Option Sig × List Val),
+    Filling st0 obj s → runM (superLoop (addSuperClasses f obj) vs err acc) s = (.ok out, s') →
+    Filling st0 obj s' ∧
+    (∀ key, hasKey (s.entries obj) (.str key) = true → hasKey (s'.entries obj) (.str key) = true) ∧
+    (∀ sr key, Val.map sr ∈ vs → TKey st0 obj f sr key → hasKey (s'.entries obj) (.str key) = true) := by
+  intro vs
+  induction vs with
+  | nil =>
+    intro err acc s s' out hf h
+    simp only [superLoop, runM_pure] at h
+    injection h with _ h2; subst h2
+    exact ⟨hf, fun _ h => h, fun _ _ hm => by cases hm⟩
+  | cons a rest ihl =>
+    intro err acc s s' out hf h
+    cases a with
+    | map sr =>
+      simp only [superLoop] at h
+      rw [runM_bind] at h
+      cases hr : runM (addSuperClasses f obj sr) s with
+      | mk rr s1 =>
+        rw [hr] at h
+        cases rr with
+        | error e => simp at h
+        | ok res1 =>
+          simp only at h
+          have ar := ih sr s s1 res1 hf hr
+          obtain ⟨g1, g2, g3⟩ := ihl _ _ s1 s' out ar.filling h
+          refine ⟨g1, fun key hk => g2 key (ar.mono key hk), ?_⟩
+          intro sr' key hm hT
+          simp only [List.mem_cons] at hm
+          rcases hm with e | hm
+          · injection e with e; subst e
+            exact g2 key (ar.keys key hT)
+          · exact g3 sr' key hm hT
+    | _ =>
+      simp only [superLoop] at h
+      obtain ⟨g1, g2, g3⟩ := ihl _ _ s s' out hf h
+      refine ⟨g1, g2, ?_⟩
+      intro sr' key hm hT
+      simp only [List.mem_cons] at hm
+      rcases hm with e | hm
+      · cases e
+      · exact g3 sr' key hm hT
+
+/-- `addSuperClasses`, all levels: every string key of the template and of every super template reachable through the
+    "super" lists is a key of the object afterwards; keys never disappear; the template's own non-function property
+    is what the object finally holds (own template over supers) -/
+theorem addSuperClasses_keys (st0 : St) (obj : Nat) (h0 : st0.backing 0 = []) (hsz : 0 < st0.lists.size) :
+    ∀ (f tr : Nat) (s s' : St) (res : Val × Option Sig), Filling st0 obj s →
+    runM (addSuperClasses f obj tr) s = (.ok res, s') → AddResult st0 obj f tr s s' := by
+  intro f
+  induction f with
+  | zero => intro tr s s' res _ h; simp [addSuperClasses, runM_throw] at h
+  | succ f ih =>
+    intro tr s s' res hf h
+    simp only [addSuperClasses] at h
+    rw [runM_bind, getMap_run] at h
+    simp only at h
+    rw [runM_bind] at h
+    -- the copy loop at the end, given what the super part established
+    have tail : ∀ (initSuper : List Val) (s1 s2 : St) (initFn : Val), Filling st0 obj s1 →
+        (∀ key, hasKey (s.entries obj) (.str key) = true → hasKey (s1.entries obj) (.str key) = true) →
+        (∀ r l sr key, mapLookup (s.entries tr) (.str superName) = some (.list r l) → Val.map sr ∈ s.elems r l →
+          TKey st0 obj f sr key → hasKey (s1.entries obj) (.str key) = true) →
+        runM (copyProps obj initSuper (s.entries tr) Val.null) s1 = (.ok initFn, s2) →
+        AddResult st0 obj (f + 1) tr s s2 := by
+      intro initSuper s1 s2 initFn f1 m1 k1 hc
+      have f2 := copyProps_filling st0 obj h0 hsz initSuper _ _ _ s1 s2 f1 hc
+      obtain ⟨_, m2, k2⟩ := copyProps_keys obj initSuper _ _ _ s1 s2 f1.1 hc
+      refine ⟨f2, fun key hk => m2 key (m1 key hk), ?_, ?_⟩
+      · intro key hT
+        cases hT with
+        | own f' tr' key' v hne hmem =>
+          rw [← hf.2.2.1 tr hne] at hmem
+          exact k2 key v hmem
+        | sup f' tr' r l sr key' hne hlook hr hmem hT' =>
+          rw [← hf.2.2.1 tr hne] at hlook
+          have : s.elems r l = st0.elems r l := by simp only [St.elems, hf.2.2.2.1 r hr]
+          rw [← this] at hmem
+          exact m2 key (k1 r l sr key hlook hmem hT')
+      · intro key v hne hmem hv huniq
+        rw [← hf.2.2.1 tr hne] at hmem huniq
+        have := copyProps_value obj initSuper key v hv _ _ _ s1 s2 f1.1 huniq hc
+        rw [this]
+        have hany : (s.entries tr).any (fun kw => keyEq kw.1 (.str key)) = true := by
+          rw [List.any_eq_true]; exact ⟨_, hmem, keyEq_str_self key⟩
+        simp [hany]
+    cases hm : mapLookup (s.entries tr) (.str superName) with
+    | none =>
+      simp only [hm, runM_pure] at h
+      rw [runM_bind] at h
+      cases hc : runM (copyProps obj [] (s.entries tr) Val.null) s with
+      | mk rc s2 =>
+        rw [hc] at h
+        cases rc with
+        | error e => simp at h
+        | ok initFn =>
+          simp only [runM_pure] at h
+          injection h with _ h2; subst h2
+          exact tail [] s s2 initFn hf (fun _ hk => hk) (fun _ _ _ _ e => by rw [hm] at e; cases e) hc
+    | some sv =>
+      cases sv with
+      | list r l =>
+        simp only [hm] at h
+        rw [runM_bind, getList_run] at h
+        simp only at h
+        cases hs : runM (superLoop (addSuperClasses f obj) (s.elems r l) none []) s with
+        | mk rs s1 =>
+          rw [hs] at h
+          cases rs with
+          | error e => simp at h
+          | ok out =>
+            obtain ⟨g1, g2, g3⟩ := superLoop_keys st0 obj f ih (s.elems r l) none [] s s1 out hf hs
+            obtain ⟨err, initSuper⟩ := out
+            simp only at h
+            rw [runM_bind] at h
+            cases hc : runM (copyProps obj initSuper (s.entries tr) Val.null) s1 with
+            | mk rc s2 =>
+              rw [hc] at h
+              cases rc with
+              | error e => simp at h
+              | ok initFn =>
+                simp only [runM_pure] at h
+                injection h with _ h2; subst h2
+                refine tail initSuper s1 s2 initFn g1 g2 ?_ hc
+                intro r' l' sr key e hmem hT
+                rw [hm] at e
+                injection e with e; injection e with e1 e2; subst e1; subst e2
+                exact g3 sr key hmem hT
+      | _ =>
+        simp only [hm, runM_pure] at h
+        rw [runM_bind] at h
+        cases hc : runM (copyProps obj [] (s.entries tr) Val.null) s with
+        | mk rc s2 =>
+          rw [hc] at h
+          cases rc with
+          | error e => simp at h
+          | ok initFn =>
+            simp only [runM_pure] at h
+            injection h with _ h2; subst h2
+            exact tail [] s s2 initFn hf (fun _ hk => hk) (fun _ _ _ _ e => by rw [hm] at e; cases e) hc
 
 end Ecal.Ev
